@@ -3,6 +3,7 @@ C13 — the event-emitting run of the case language (`run`, with drain / finish 
 reaches a crash outcome, on any port, in any mode, for any callback oracle.
 -/
 import NV.C13.Lemmas14
+import NV.C13.Lemmas17
 
 namespace NV.C13
 
@@ -69,7 +70,7 @@ theorem doExtract_rinv {p : Port} {r : Run} (k : RInv p r) : RInv p (doExtract r
         rw [h5, k.port] at hh; rcases hp with hp | hp <;> rw [hp] at hh <;> simp at hh⟩
       cases rr with
       | none => exact add_rinv k.alive _ (h5.trans k.port) h2 hpi
-      | some l => exact add_rinv k.alive _ (h5.trans k.port) h2 hpi
+      | some l => exact add_rinv (r := { r with noEcho := false }) k.alive _ (h5.trans k.port) h2 hpi
     · have : getUserCommand r.s = .ok (r.s, none) := by
         unfold getUserCommand; rw [k.pinv.noflag (by rw [k.port]; exact hp)]; rfl
       rw [this]
@@ -98,10 +99,89 @@ theorem finishLoop_rinv (o : Oracle) {p : Port} (fuel : Nat) {r : Run} (k : RInv
     · exact k
     · exact ih (drainLoop_rinv 5000 (doRead_rinv o k))
 
-/-- `line` (add_console_line) only occurs on the console port -/
-def WellFormed (p : Port) (ops : List Op) : Prop := ∀ b, Op.line b ∈ ops → p = .console
+theorem doServe_rinv {p : Port} {r : Run} (k : RInv p r) (hp : p = .telnet) : RInv p (doServe r) := by
+  unfold doServe
+  split
+  · exact k
+  · obtain ⟨s', rr, h1, h2, h3, _, h5, _⟩ := getUserCommand_N k.inv (k.pinv.nul (by rw [k.port]; exact Or.inl hp))
+    rw [h1]
+    have hpt : s'.port = .telnet := h5.trans (k.port.trans hp)
+    have hpi : ∀ s2 : S, s2.port = .telnet → NulAfter s2 → PortInv s2 := fun s2 e n =>
+      ⟨fun _ => n, fun hh => by rw [e] at hh; simp at hh⟩
+    cases rr with
+    | none => exact add_rinv k.alive _ (h5.trans k.port) h2 (hpi _ hpt h3)
+    | some l =>
+      dsimp only
+      split
+      · obtain ⟨s2, tx, e1, i2, n2, p2, _⟩ := endInput_N h2 h3
+        rw [e1]
+        exact add_rinv (r := { r with noEcho := false, inputTo := false }) k.alive _ ((p2.trans hpt).trans hp.symm) i2
+          (hpi _ (p2.trans hpt) n2)
+      · exact add_rinv (r := { r with noEcho := false }) k.alive _ (h5.trans k.port) h2 (hpi _ hpt h3)
 
-theorem stepOp_rinv (o : Oracle) {p : Port} {r : Run} (k : RInv p r) (op : Op) (hw : ∀ b, op = .line b → p = .console) :
+theorem doSetCall_rinv {p : Port} {r : Run} (k : RInv p r) (hp : p = .telnet) (single noecho : Bool) :
+    RInv p (doSetCall r single noecho) := by
+  unfold doSetCall
+  split
+  · exact k
+  · split
+    · exact add_rinv k.alive _ k.port k.inv k.pinv
+    · obtain ⟨s', tx, e1, i1, n1, p1, _⟩ := setCall_N k.inv (k.pinv.nul (by rw [k.port]; exact Or.inl hp)) single noecho
+      rw [e1]
+      exact add_rinv (r := { r with inputTo := true, noEcho := r.noEcho || noecho }) k.alive _ (p1.trans k.port) i1
+        ⟨fun _ => n1, fun hh => by rw [p1, k.port, hp] at hh; simp at hh⟩
+
+theorem doLine_rinv {p : Port} {r : Run} (k : RInv p r) (hp : p = .console) (b : List Byte) : RInv p (doLine r b) := by
+  unfold doLine
+  split
+  · exact k
+  · obtain ⟨s', h1, h2, h3, _, h5⟩ := addConsoleLine_N k.inv (k.pinv.nul (Or.inr (k.port.trans hp))) b
+    rw [h1]
+    exact add_rinv k.alive _ (h5.trans k.port) h2 ⟨fun _ => h3, fun hh => by
+      rw [h5, k.port, hp] at hh; simp at hh⟩
+
+theorem workerChunks_len : ∀ (fuel : Nat) (data : List Byte), ∀ c ∈ workerChunks fuel data,
+    c.length ≤ consoleMaxLine - consoleReadReserve := by
+  intro fuel
+  induction fuel with
+  | zero => intro data c hc; simp [workerChunks] at hc
+  | succ n ih =>
+    intro data c hc
+    unfold workerChunks at hc
+    split at hc
+    · cases hc
+    · rcases List.mem_cons.mp hc with h | h
+      · rw [h, List.length_take]; exact Nat.min_le_left _ _
+      · exact ih _ c h
+
+theorem doLineW_rinv {p : Port} {r : Run} (k : RInv p r) (hp : p = .console) (c : List Byte)
+    (hc : c.length ≤ consoleMaxLine - consoleReadReserve) : RInv p (doLineW r c) := by
+  unfold doLineW
+  rw [if_neg (by rw [k.alive]; simp)]
+  have h1 : 1 ≤ consoleReadReserve := by decide
+  have h2 : consoleReadReserve ≤ consoleMaxLine := by decide
+  rw [if_neg (by omega)]
+  exact doLine_rinv k hp c
+
+theorem doWpipe_rinv {p : Port} {r : Run} (k : RInv p r) (hp : p = .console) (data : List Byte) : RInv p (doWpipe r data) := by
+  unfold doWpipe
+  have hl := workerChunks_len (data.length + 1) data
+  generalize workerChunks (data.length + 1) data = cs at hl
+  induction cs generalizing r with
+  | nil => exact k
+  | cons c rest ih =>
+    simp only [List.foldl_cons]
+    exact ih (doLineW_rinv k hp c (hl c List.mem_cons_self)) (fun x hx => hl x (List.mem_cons_of_mem _ hx))
+
+/-- `line` / `wpipe` (console input) only occur on the console port; get_char / input_to / serve are scripted on the
+    telnet port -/
+def WellFormed (p : Port) (ops : List Op) : Prop :=
+  (∀ op ∈ ops, ((∃ b, op = .line b) ∨ (∃ b, op = .wpipe b)) → p = .console) ∧
+  (∀ op ∈ ops, (op = .serve ∨ (∃ ne, op = .getchar ne) ∨ (∃ ne, op = .inputto ne)) → p = .telnet)
+
+theorem stepOp_rinv (o : Oracle) {p : Port} {r : Run} (k : RInv p r) (op : Op)
+    (hw : ((∃ b, op = .line b) ∨ (∃ b, op = .wpipe b)) → p = .console)
+    (hw2 : (op = .serve ∨ (∃ ne, op = .getchar ne) ∨ (∃ ne, op = .inputto ne)) → p = .telnet) :
     RInv p (stepOp o r op) := by
   unfold stepOp
   rw [if_neg (by rw [k.alive]; simp)]
@@ -126,28 +206,25 @@ theorem stepOp_rinv (o : Oracle) {p : Port} {r : Run} (k : RInv p r) (op : Op) (
   | extract => exact doExtract_rinv k
   | drain => exact drainLoop_rinv 5000 k
   | finish => exact finishLoop_rinv o 20000 k
-  | line b =>
-    dsimp only
-    split
-    · exact k
-    · have hp := hw b rfl
-      obtain ⟨s', h1, h2, h3, _, h5⟩ := addConsoleLine_N k.inv (k.pinv.nul (Or.inr (k.port.trans hp))) b
-      rw [h1]
-      exact add_rinv k.alive _ (h5.trans k.port) h2 ⟨fun _ => h3, fun hh => by
-        rw [h5, k.port, hp] at hh; simp at hh⟩
+  | line b => exact doLine_rinv k (hw (Or.inl ⟨b, rfl⟩)) b
+  | wpipe b => exact doWpipe_rinv k (hw (Or.inr ⟨b, rfl⟩)) b
+  | getchar ne => exact doSetCall_rinv k (hw2 (Or.inr (Or.inl ⟨ne, rfl⟩))) true ne
+  | inputto ne => exact doSetCall_rinv k (hw2 (Or.inr (Or.inr ⟨ne, rfl⟩))) false ne
+  | serve => exact doServe_rinv k (hw2 (Or.inl rfl))
 
 theorem run_rinv (p : Port) (o : Oracle) (ops : List Op) (hw : WellFormed p ops) : RInv p (run p o ops) := by
   unfold run
   have h0 : RInv p { s := S.init p, evs := afterStep (S.init p) } :=
     ⟨rfl, rfl, init_inv p, ⟨fun _ => nulAfter_init p, fun _ => rfl⟩⟩
-  suffices H : ∀ (r : Run), RInv p r → (∀ b, Op.line b ∈ ops → p = .console) → RInv p (ops.foldl (stepOp o) r) from
-    H _ h0 hw
+  suffices H : ∀ (r : Run), RInv p r → WellFormed p ops → RInv p (ops.foldl (stepOp o) r) from H _ h0 hw
   induction ops with
   | nil => intro r k _; exact k
   | cons op ops ih =>
     intro r k hw'
     simp only [List.foldl_cons]
-    exact ih (fun b hb => hw b (by simp [hb])) _ (stepOp_rinv o k op (fun b hb => hw' b (by simp [hb])))
-      (fun b hb => hw' b (by simp [hb]))
+    have hwt : WellFormed p ops :=
+      ⟨fun x hx hh => hw'.1 x (List.mem_cons_of_mem _ hx) hh, fun x hx hh => hw'.2 x (List.mem_cons_of_mem _ hx) hh⟩
+    exact ih hwt _ (stepOp_rinv o k op (fun hh => hw'.1 op List.mem_cons_self hh)
+      (fun hh => hw'.2 op List.mem_cons_self hh)) hwt
 
 end NV.C13
